@@ -191,6 +191,8 @@ def mixed_gc_pair(rng):
         for _ in range(n):
             dx, dy = rng.choice([(10, 0), (0, 10), (10, 10), (-10, 10), (20, 0), (10, -10)])
             pts.append((pts[-1][0] + dx, pts[-1][1] + dy))
+        if rng.random() < 0.35:
+            pts = pts + [pts[0]]          # closed line: its end is in the line interior
         A = ('LineString', pts)
     else:
         A = ('Polygon', [rng.choice([[(4, 4), (6, 4), (5, 6), (4, 4)], [(2, 2), (8, 2), (8, 8), (5, 5), (2, 8), (2, 2)], G.rect_ring(3, 3, 7, 8)])])
@@ -209,8 +211,8 @@ def mixed_gc_pair(rng):
         hit = ('Polygon', [G.rect_ring((x0 + x1) // 2, y0 - 3, x1 + 6, y1 + 3)])
     elif k < 0.8:    # line crossing A's extent
         hit = ('LineString', [(x0 - 4, (y0 + y1) // 2), (x1 + 4, (y0 + y1) // 2 + 1)])
-    elif k < 0.9:    # point on a vertex that is not the first
-        hit = ('Point', pts[-1] if A[0] == 'LineString' else pts[len(pts) // 2])
+    elif k < 0.9:    # point on a line end / on a vertex that is not the first
+        hit = ('Point', rng.choice([pts[0], pts[-1]]) if A[0] == 'LineString' else pts[len(pts) // 2])
     else:            # nothing interacts
         hit = ('Point', (far, -far))
     others = [('Polygon', [G.rect_ring(far, far, far + 6, far + 4)]), ('Point', (-far, far)), ('LineString', [(-far, -far), (-far + 5, -far + 2)]),
@@ -218,6 +220,8 @@ def mixed_gc_pair(rng):
     rng.shuffle(others)
     extra = [o for o in others if o[0] != hit[0]][:rng.randint(1, 2)]
     elems = [hit] + extra
+    if A[0] == 'LineString' and hit[0] == 'Point' and rng.random() < 0.5:
+        elems.append(('Point', pts[-1] if hit[1] == pts[0] else pts[0]))     # points on both ends of the line
     rng.shuffle(elems)
     return A, ('GeometryCollection', elems)
 
@@ -345,7 +349,11 @@ def run(ctx):
             l = l.strip()
             if l and not l.startswith('#'):
                 a, b = l.split('|')[:2]
-                cases.append(('corpus', a, b, None, None))
+                try:
+                    da, db = G.dim_real(G.from_wkt(a)), G.dim_real(G.from_wkt(b))
+                except Exception:
+                    da = db = None        # not in the WKT subset the model side needs dimensions for: crash / agreement only
+                cases.append(('corpus', a, b, da, db))
     for _ in range(n):
         kind, A, B = gen_pair(rng) if rng.random() < 0.6 else structured_pair(rng)
         if rng.random() < 0.35:
